@@ -7,7 +7,6 @@ package hdr
 import (
 	"fmt"
 	"math/big"
-	"os"
 	"sort"
 	"strings"
 	"testing"
@@ -111,19 +110,20 @@ type Inst struct {
 }
 
 type Focus struct {
-	ID          string
-	Verdicts    bool // compare every ProcessHeader answer with the reference verdict
-	RefusalSnap bool // full snapshot (incl. Save image) equality around non-accepting answers
-	Lookups     bool // all lookups of all headers after every step
-	Stream      bool // subscribers
-	Twin        bool // Save+Load twin in lock-step
-	Crash       bool // crash images of every Clean/Save
-	Marks       bool // mark/unmark operations
-	CleanSnap   bool // snapshot equality around Clean
-	Locators    bool
-	RealDepth   bool // use the real Clean/Load (depth 10000) instead of the hooks
-	DeepReorgs  bool // small regime without the reorganisation-depth precondition (stale forks may overtake)
-	StaleForks  bool // real-depth: always build 2..3 stale forks with the prune boundary among their tips
+	ID           string
+	Verdicts     bool // compare every ProcessHeader answer with the reference verdict
+	RefusalSnap  bool // full snapshot (incl. Save image) equality around non-accepting answers
+	Lookups      bool // all lookups of all headers after every step
+	Stream       bool // subscribers
+	Twin         bool // Save+Load twin in lock-step
+	Crash        bool // crash images of every Clean/Save
+	Marks        bool // mark/unmark operations
+	CleanSnap    bool // snapshot equality around Clean
+	Locators     bool
+	RealDepth    bool // use the real Clean/Load (depth 10000) instead of the hooks
+	NoDeepReorgs bool
+	DeepReorgs   bool // small regime without the reorganisation-depth precondition (stale forks may overtake)
+	StaleForks   bool // real-depth: always build 2..3 stale forks with the prune boundary among their tips
 }
 
 type M struct {
@@ -160,8 +160,13 @@ var bitsLadder = []uint32{0x1d00ffff, 0x1d00ffff, 0x1d00ffff, 0x1c7fffff, 0x1d00
 func (m *M) ctx() interface{} { return nil }
 
 func newMachine(t *rapid.T, k *evid.Case, f Focus) *M {
-	if os.Getenv("VERIF_NOP2") != "" {
-		f.DeepReorgs = true
+	if !f.RealDepth && !f.Crash && !f.NoDeepReorgs {
+		// two thirds of the small-regime histories have no bound on the depth of a
+		// reorganisation (a stale fork may overtake from below the prune depth)
+		f.DeepReorgs = rapid.IntRange(0, 2).Draw(t, "deepReorgs") > 0
+		if f.DeepReorgs {
+			k.Class("reorg_depth_unbounded")
+		}
 	}
 	m := &M{t: t, k: k, f: f, tree: model.NewTree(mainGenesis), refusalClasses: map[Verdict]int{},
 		sideBornBeforeClean: map[*model.Node]bool{}}
@@ -235,9 +240,24 @@ func (m *M) buildBase(t *rapid.T, inst *Inst) {
 		n = 10000 + rapid.IntRange(max(1, lo-3), hi+3).Draw(t, "baseOver")
 	}
 	m.k.Op("base chain %d stale forks %v (created at %d)", n, stales, staleAt)
+	// C18: some base-chain headers are blocks with known transactions (history that is later
+	// served from storage, around the file and prune boundaries)
+	blockAt := map[int]bool{}
+	if m.f.ID == "C18" {
+		for _, h := range []int{1, 2, 999, 1000, 1001, n - 10001, n - 10000, n - 9999, n - 9000, n - 150, n - 1, n} {
+			if h >= 1 {
+				blockAt[h] = true
+			}
+		}
+	}
 	cur := m.tree.Genesis
 	for i := 0; i < n; i++ {
 		raw := m.newHeader(cur.Hash, cur.Raw.Timestamp, 0x1d00ffff)
+		if blockAt[i+1] {
+			txids := m.genTxids(t)
+			raw.Merkle = model.MerkleRoot(txids)
+			m.blocks = append(m.blocks, &block{raw: raw, txids: txids, status: "submitted"})
+		}
 		if err := inst.repo.ProcessHeader(vt.Ctx(), toWire(&raw)); err != nil {
 			t.Fatalf("base header %d: %s", i+1, err)
 		}
@@ -752,6 +772,17 @@ func (m *M) sampleHeights(inst *Inst, tipHeight int, full bool) []int {
 
 func (m *M) checkChainReal(inst *Inst, tip *model.Node, chain []*model.Node, full bool) {
 	ctx := vt.Ctx()
+	// Legs whose property is not about the chain by height (stream, verdicts, marks, proofs,
+	// locators) read storage-served heights only after maintenance steps and at the end: every
+	// such read parses and hashes a 1000-header file.
+	light := !full && !m.finalCheck && m.f.ID != "C01" && m.f.ID != "C09" && m.f.ID != "C10" && m.f.ID != "C11" && m.f.ID != "C12"
+	if light {
+		for h := max(0, tip.Height-40); h <= tip.Height; h++ {
+			m.checkHeight(inst, tip, chain, h)
+		}
+		m.checkHeight(inst, tip, chain, int(uint32(m.ctr*2654435761)%uint32(tip.Height+1)))
+		return
+	}
 	for _, h := range m.sampleHeights(inst, tip.Height, full) {
 		m.checkHeight(inst, tip, chain, h)
 	}
